@@ -7,6 +7,8 @@ import (
 	"os"
 	"strconv"
 
+	"github.com/brimdata/super/compiler"
+
 	"verifharness/hlib"
 )
 
@@ -17,11 +19,31 @@ type Plan struct {
 	Quick    int
 	Thorough int
 	Workers  int
+	// Parallelism: value of compiler.Parallelism while this plan runs (0 = leave the default,
+	// GOMAXPROCS).  With 1 the delete-where deleter handles all objects on one thread, one
+	// whole object after another.
+	Parallelism int
+}
+
+// WithParallelism runs fn with compiler.Parallelism set to n (0 = unchanged) and restores it.
+func WithParallelism(n int, fn func()) {
+	if n <= 0 {
+		fn()
+		return
+	}
+	old := compiler.Parallelism
+	compiler.Parallelism = n
+	defer func() { compiler.Parallelism = old }()
+	fn()
 }
 
 // RunPlan runs corpus cases, the replay (if any) or freshly generated histories, and the
 // model comparison.
 func RunPlan(c *hlib.Ctx, pl Plan) {
+	WithParallelism(pl.Parallelism, func() { runPlan(c, pl) })
+}
+
+func runPlan(c *hlib.Ctx, pl Plan) {
 	opt := pl.Opt
 	if n, err := strconv.Atoi(os.Getenv("VERIF_DET")); err == nil {
 		opt.Determinism = n
@@ -60,6 +82,9 @@ func RunPlan(c *hlib.Ctx, pl Plan) {
 			if prof.Plain && cfg.Key == "this" {
 				cfg.Key = "k"
 			}
+			if prof.MinThresh > 0 && cfg.Thresh != 0 && cfg.Thresh < prof.MinThresh {
+				cfg.Thresh = prof.MinThresh
+			}
 			texts, keys := GenAlphabet(rng, cfg, prof.Plain)
 			h := &History{Cfg: cfg, Vals: texts, Keys: keys, Profile: prof.Name}
 			gen[i] = RunHistory(h, &prof, rng, opt)
@@ -71,6 +96,9 @@ func RunPlan(c *hlib.Ctx, pl Plan) {
 	for i, o := range outs {
 		if o.H.Profile != "" {
 			c.Stat("profile:" + o.H.Profile)
+		}
+		if pl.Parallelism > 0 {
+			c.Stat(fmt.Sprintf("parallelism:%d", pl.Parallelism))
 		}
 		if line := Report(c, o, opt); line != "" {
 			lines = append(lines, line)
